@@ -130,3 +130,6 @@ def cases(tier, seed, ctx=None):
     # is answered in clear text, the TLS client is served
     for n in ((70,) if quick else (10, 70, 200)):
         yield ("tls", [9, n], "many-connections-open")
+    # the server stops listening while accepted connections are still in their handshake (graceful shutdown): they are served
+    for n in (1, 3):
+        yield ("tls", [10, n], "closed-mid-handshake")
